@@ -353,7 +353,7 @@ def setattr_base(eng, st, v, name, val, raw=False):
             if "setattr" in o.meta and not raw:
                 return o.meta["setattr"](eng, st, v, name, val)
             o.fields[name] = val
-            st.touch(o)
+            st.touch(o, name)
             if "on_write" in o.meta:
                 o.meta["on_write"](eng, st, v, name, val)
             return eng.ok(st, NONE)
@@ -693,22 +693,61 @@ def abslist_comprehension(eng, st, lst, e, gen):
 def abslist_for(eng, st, lst, stmt):
     """`for x in abslist: body` by arbitrary-iteration abstraction.
 
-    Sound for obligations *inside* the body (they are checked for an arbitrary element from an
-    arbitrary reachable loop state) provided the body's writes are havocked first.  pyvc requires
-    a registered frame for the loop (engine.loop_frames) unless the body is write-free."""
+    1. probe: run the body once from the current state to discover its write set (pre-existing heap
+       objects written, local names assigned);
+    2. havoc that write set (the state at the start of an arbitrary iteration is arbitrary on it);
+    3. run the body on an arbitrary element: obligations inside are checked there;
+    4. havoc the write set again (later iterations) and continue after the loop; effects logged by the
+       body are duplicated in the log (they may happen any number of times).
+    Loops whose body is write-free need no havoc.  For elements known to be in the list the body's
+    fall-through condition is assumed after a complete run (see _assume_fallthrough)."""
     key = (st.frame.func.qualname if st.frame.func else None, stmt.lineno)
-    havoc = eng.loop_invariants.get(("frame",) + key) or eng.loop_invariants.get(("frame", key[0]))
     o = st.obj(lst)
     res = []
-    # zero iterations
-    brs = eng.branch(st, o.meta["nonempty"])
+    musts = list(o.meta.get("must", []))
+    # ---- probe
+    probe = st.clone()
+    probe.wfields = {}
+    pmark = probe.mark()
+    plocals = dict(probe.frame.locals)
+    written, assigned = {}, set()
+    try:
+        for s2, v in abslist_pick(eng, probe, lst):
+            for s3, o3 in eng.assign_target(s2, stmt.target, v):
+                if o3[0] != "next":
+                    continue
+                for s4, o4 in eng.exec_block(s3, stmt.body):
+                    if o4[0] not in ("next", "continue"):
+                        continue        # writes on paths that leave the loop do not reach later iterations
+                    for a in s4.wlog[pmark[0]:]:
+                        if a <= pmark[1]:
+                            written.setdefault(a, set()).update(s4.wfields.get(a, {None}))
+                    for k, val in s4.frame.locals.items():
+                        if k not in plocals or plocals[k] is not val:
+                            assigned.add(k)
+    except OutOfSubset:
+        raise
+    assigned -= set(_target_names(stmt.target))
+    saved_obls = None
+
+    def havoc(s):
+        from . import world
+        for a in sorted(written):
+            world.auto_havoc_object(eng, s, a, written[a])
+        for k in sorted(assigned):
+            if k in s.frame.locals:
+                s.frame.locals[k] = world.havoc_value(eng, s, s.frame.locals[k], k)
+            elif k in plocals:
+                s.frame.locals[k] = world.havoc_value(eng, s, plocals[k], k)
+    # ---- zero iterations / some iterations
+    brs = eng.branch(st, o.meta["nonempty"] if not musts else zor(o.meta["nonempty"], *[g for g, _ in musts]))
     for s, nonempty in brs:
         if not nonempty:
             res.append((s, ("next", None)))
             continue
-        if havoc is not None:
-            havoc(eng, s, "pre")
-        base_mark = s.mark()
+        if written or assigned:
+            havoc(s)
+        n_eff = len(s.effects)
         for s2, v in abslist_pick(eng, s, lst):
             for s3, o3 in eng.assign_target(s2, stmt.target, v):
                 if o3[0] != "next":
@@ -716,14 +755,57 @@ def abslist_for(eng, st, lst, stmt):
                     continue
                 for s4, o4 in eng.exec_block(s3, stmt.body):
                     if o4[0] in ("next", "continue", "break"):
-                        if not s4.clean_since(base_mark) and havoc is None:
-                            raise OutOfSubset("loop over abstract list at %s:%s writes the heap and has no frame contract" % key)
-                        if havoc is not None:
-                            havoc(eng, s4, "post")
+                        new_eff = s4.effects[n_eff:]
+                        if o4[0] != "break":
+                            s4.effects.extend(new_eff)      # may repeat
+                            if written or assigned:
+                                havoc(s4)
+                            _assume_fallthrough(eng, s4, lst, stmt, musts)
                         res.append((s4, ("next", None)))
                     else:
                         res.append((s4, o4))
     return res
+
+
+def _target_names(t):
+    if isinstance(t, ast.Name):
+        return [t.id]
+    if isinstance(t, (ast.Tuple, ast.List)):
+        out = []
+        for e in t.elts:
+            out.extend(_target_names(e))
+        return out
+    return []
+
+
+def _assume_fallthrough(eng, st, lst, stmt, musts):
+    """The loop ran to completion: for every element known to be in the list the body fell through.
+    Only used when the body is write-free for that element (otherwise nothing is assumed)."""
+    for g, v in musts:
+        if z3.is_false(g):
+            continue
+        probe = st.clone()
+        mark = probe.mark()
+        base = len(probe.pc)
+        conds = []
+        ok = True
+        try:
+            for s3, o3 in eng.assign_target(probe, stmt.target, v):
+                if o3[0] != "next":
+                    ok = False
+                    break
+                for s4, o4 in eng.exec_block(s3, stmt.body):
+                    if not s4.clean_since(mark):
+                        ok = False
+                        break
+                    if o4[0] in ("next", "continue"):
+                        conds.append(zand(*s4.pc[base:]))
+                        for d in s4.defs[len(st.defs):]:
+                            st.defs.append(d)
+        except OutOfSubset:
+            ok = False
+        if ok:
+            st.assume(z3.Implies(g, zor(*conds)))
 
 
 # ---------------------------------------------------------------------------------------------
@@ -874,7 +956,13 @@ def instantiate(eng, st, cref, args, kwargs):
     if hit is None or hit[0] != "method":
         return eng.ok(st, r)
     fref = FuncRef(hit[2].info.module, hit[1], hit[2].info, closure=getattr(hit[2].info, "closure", None))
-    return eng.bind(eng.call_function(st, fref, args, kwargs, self_v=r), lambda s, _: eng.ok(s, r))
+
+    def done(s, _):
+        hook = getattr(eng, "post_init", {}).get(info.qualname)
+        if hook is not None:
+            hook(eng, s, r)
+        return eng.ok(s, r)
+    return eng.bind(eng.call_function(st, fref, args, kwargs, self_v=r), done)
 
 
 def enum_by_value(eng, st, info, v):
@@ -1632,3 +1720,13 @@ def _random(eng, st, recv, args, kwargs):
 @bf("os.urandom")
 def _urandom(eng, st, recv, args, kwargs):
     return eng.ok(st, P.fresh("Bytes", "urandom"))
+
+
+@bf("abslist.append")
+def _al_append(eng, st, recv, args, kwargs):
+    o = st.obj(recv)
+    o.meta = dict(o.meta)
+    o.meta["nonempty"] = BT
+    o.meta["known"] = list(o.meta["known"]) + [args[0]]
+    st.touch(o)
+    return eng.ok(st, NONE)
